@@ -4,7 +4,8 @@
 (*            d     = the candidate definition offered to the theory  [name, T, args, rhs]                  *)
 (*            phase = "offered" | "added" | "refused"                                                       *)
 (*   init     every candidate of the universe below is offered to the base theory (one initial state each) *)
-(*   actions  Add     the candidate satisfies the literal conditions and its name is new: constant + equation *)
+(*   actions  Add     the candidate satisfies the literal conditions, its name is new and the equation is       *)
+(*                    well-typed over the extended signature: constant + equation are added                  *)
 (*            Refuse  otherwise                                                                              *)
 (*   property ConservativeIfOK   SyntacticOK(d) => Conservative(d, N)     (the two readings of the statement) *)
 (*            AddedWellTyped     everything in an extended theory is well-typed over ITS signature           *)
@@ -23,7 +24,6 @@ B == BoolT
 TA == <<"tv","a">>
 TB == <<"tv","b">>
 cTrue == <<"const","true",B>>
-cFalse == <<"const","false",B>>
 Neg == <<"const","neg",FunT(B,B)>>
 Conj == <<"const","conj",FunT(B,FunT(B,B))>>
 \* closed polymorphic formula "the type T has exactly one element", used as an atom of the generator (a macro)
@@ -66,13 +66,17 @@ ArgSeqs(T) == LET As == ArgTys(T) IN
    {<<>>} \cup (IF Len(As) >= 1 THEN { <<a>> : a \in Pool(As, 1) } ELSE {})
           \cup (IF Len(As) >= 2 THEN { <<a, b>> : a \in Pool(As, 1), b \in Pool(As, 2) } ELSE {})
 \* atoms of right-hand sides
+OtherInst(nm, T) == IF nm = "neg" THEN {}
+                    ELSE IF Rich THEN {B, TA, FunT(B,B)} \ {T}
+                    ELSE IF nm = "ov" THEN {B, TA} \ {T}
+                    ELSE IF T = FunT(B,B) THEN {B} ELSE {FunT(B,B)}
 SigOf(nm, T, args) ==
    UNION { FreeVarsOf(args[i]) : i \in 1..Len(args) }
    \cup {<<"var","z",B>>, <<"svar","z",B>>}                                       \* extra free variables
-   \cup {cTrue, Neg, EqC(B), EqC(TA), MacroB, MacroS}
+   \cup {cTrue, Neg, EqC(TA), MacroB, MacroS}
    \cup {<<"const", nm, T>>}                                                     \* self-reference
-   \cup (IF nm = "ov" THEN { <<"const","ov",T2>> : T2 \in {B, TA, FunT(B,B)} \ {T} } ELSE {})   \* other instances of the overloaded name
-   \cup (IF Rich THEN {cFalse, Conj, MacroA, <<"var","w",TA>>, AllC(TA)} ELSE {})
+   \cup { <<"const",nm,T2>> : T2 \in OtherInst(nm, T) }                          \* the same name at other types (overlapping or not)
+   \cup (IF Rich THEN {EqC(B), Conj, MacroA, <<"var","w",TA>>, AllC(TA)} ELSE {})
 GenArgTypes == {B, TA, FunT(TA,B)} \cup (IF Rich THEN {FunT(B,B)} ELSE {})
 Cand(nm, T, args, rhs) == [name |-> nm, T |-> T, args |-> args, rhs |-> rhs]
 CandsFor(nm, T, args) == { Cand(nm, T, args, Expand(r)) : r \in Gen(SigOf(nm, T, args), GenArgTypes, RestT(T, Len(args)), Depth, <<>>) }
@@ -91,16 +95,19 @@ NewName(t, x) == IF x.name \notin DOMAIN t.consts THEN TRUE
 Extend(t, x) == [types |-> t.types,
                  consts |-> IF x.name \in DOMAIN t.consts THEN t.consts ELSE (x.name :> Decl(x.T, FALSE)) @@ t.consts,
                  thms |-> t.thms \cup {DefProp(x)}]
+CSig(t) == LET ks == SetToSeq(DOMAIN t.consts) IN [i \in 1..Len(ks) |-> <<ks[i], t.consts[ks[i]].T>>]
+\* the defining equation is well-typed over the signature extended by the constant (a NEW name must not occur at a non-instance type)
+WellFormed(t, x) == PropOK(DefProp(x), CSig(Extend(t, x)), t.types)
+Acceptable(t, x) == SyntacticOK(x) /\ NewName(t, x) /\ WellFormed(t, x)
 Init == thy = BaseThy /\ d \in Candidates /\ phase = "offered"
-Add == /\ phase = "offered" /\ SyntacticOK(d) /\ NewName(thy, d)
+Add == /\ phase = "offered" /\ Acceptable(thy, d)
        /\ thy' = Extend(thy, d) /\ phase' = "added" /\ UNCHANGED d
-Refuse == /\ phase = "offered" /\ ~(SyntacticOK(d) /\ NewName(thy, d))
+Refuse == /\ phase = "offered" /\ ~Acceptable(thy, d)
           /\ phase' = "refused" /\ UNCHANGED <<thy, d>>
 Next == Add \/ Refuse
 Spec == Init /\ [][Next]_vars
 
 \* ---------------------------------------------------------------- properties
-CSig(t) == LET ks == SetToSeq(DOMAIN t.consts) IN [i \in 1..Len(ks) |-> <<ks[i], t.consts[ks[i]].T>>]
 ConservativeIfOK == (SyntacticOK(d) /\ NewName(BaseThy, d) /\ CExaminable(d, N)) => Conservative(d, N)
 AllExaminable == (SyntacticOK(d) /\ NewName(BaseThy, d)) => CExaminable(d, N)
 AddedWellTyped == \A p \in thy.thms : PropOK(p, CSig(thy), thy.types)
@@ -109,7 +116,7 @@ OnlyOKAdded == thy.thms # {} => phase = "added" /\ thy.thms = {DefProp(d)} /\ Sy
 \* ---------------------------------------------------------------- vectors
 ToJ(x) == LET ex == CExaminable(x, N) IN
           [name |-> x.name, T |-> x.T, args |-> x.args, rhs |-> x.rhs,
-           sok |-> SyntacticOK(x), exam |-> ex, cons |-> IF ex THEN Conservative(x, N) ELSE FALSE, newname |-> NewName(BaseThy, x)]
+           sok |-> SyntacticOK(x), exam |-> ex, cons |-> IF ex THEN Conservative(x, N) ELSE FALSE, newname |-> NewName(BaseThy, x), wf |-> WellFormed(BaseThy, x)]
 Post == LET cs == SetToSeq(Candidates) IN
         /\ ndJsonSerialize(IOEnv.VECTOR_FILE, [i \in 1..Len(cs) |-> ToJ(cs[i])])
         /\ PrintT(<<"candidates", Len(cs)>>)
